@@ -203,6 +203,12 @@ pub enum Commit {
   None,
   WrongBytes,
   SecondInput,
+  /// an immature (5 confirmations) taproot commitment input followed by a mature one
+  T5ThenT6,
+  /// a non-taproot input carrying the commitment followed by a mature taproot one
+  N6ThenT6,
+  /// mature first, immature second
+  T6ThenT5,
 }
 
 #[derive(Clone, Copy, PartialEq, Debug)]
@@ -370,6 +376,9 @@ pub const TEMPLATES: &[Template] = &[
   tpl!("etch-high-nocommit", false, etch: etch(Name::High, Commit::None, Some(1000), TermsK::None)),
   tpl!("etch-high-wrongbytes", false, etch: etch(Name::High, Commit::WrongBytes, Some(1000), TermsK::None)),
   tpl!("etch-high-commit-2nd-input", false, etch: etch(Name::High, Commit::SecondInput, Some(1000), TermsK::None)),
+  tpl!("etch-commit-immature-then-mature", false, etch: etch(Name::High, Commit::T5ThenT6, Some(1000), TermsK::None)),
+  tpl!("etch-commit-nontaproot-then-taproot", false, etch: etch(Name::High, Commit::N6ThenT6, Some(1000), TermsK::None)),
+  tpl!("etch-commit-mature-then-immature", false, etch: etch(Name::High, Commit::T6ThenT5, Some(1000), TermsK::None)),
   tpl!("etch-abs-window-next", true, etch: etch(Name::High, Commit::T6, None, TermsK::AbsWindowNext)),
   tpl!("etch-rel-window-next", false, etch: etch(Name::High, Commit::T6, None, TermsK::RelWindowNext)),
   tpl!("etch-terms-nocap", false, etch: etch(Name::High, Commit::T6, None, TermsK::NoCap)),
@@ -396,6 +405,8 @@ pub const TEMPLATES: &[Template] = &[
   tpl!("mint-next-tx", true, mint: Some(MintT::NextTx)),
   tpl!("mint-r0-pointer-1", false, outputs: AB_RS, mint: Some(MintT::R(0)), pointer: PtrK::Idx(1)),
   tpl!("mint-r0-edict-all-to-1", false, outputs: AB_RS, mint: Some(MintT::R(0)), edicts: &[(EId::R(0), EAmt::Zero, EOut::Idx(1))]),
+  tpl!("mint-r0-spending-r0", false, inputs: &[RIn::Runic(0)], mint: Some(MintT::R(0))),
+  tpl!("mint-r0-spending-r0-split", false, inputs: &[RIn::Runic(0)], outputs: &[Out::A, Out::B, Out::Rs], mint: Some(MintT::R(0)), edicts: &[(EId::R(0), EAmt::Zero, EOut::N)]),
   // ---- transfers ----
   tpl!("xfer-no-runestone", true, inputs: &[RIn::Runic(0)], outputs: &[Out::B], no_runestone: true),
   tpl!("xfer-edict-all-to-1", true, inputs: &[RIn::Runic(0)], outputs: AB_RS, edicts: &[(EId::R(0), EAmt::Zero, EOut::Idx(1))]),
@@ -403,6 +414,8 @@ pub const TEMPLATES: &[Template] = &[
   tpl!("xfer-edict-more-than-balance", false, inputs: &[RIn::Runic(0)], outputs: AB_RS, edicts: &[(EId::R(0), EAmt::AllPlusOne, EOut::Idx(1))]),
   tpl!("xfer-split-even", true, inputs: &[RIn::Runic(0)], outputs: &[Out::A, Out::B, Out::Rs, Out::C], edicts: &[(EId::R(0), EAmt::Zero, EOut::N)]),
   tpl!("xfer-split-seven-each", true, inputs: &[RIn::Runic(0)], outputs: &[Out::A, Out::B, Out::Rs, Out::C], edicts: &[(EId::R(0), EAmt::Seven, EOut::N)]),
+  tpl!("xfer-split-even-opreturn-first", true, inputs: &[RIn::Runic(0)], outputs: &[Out::Rs, Out::A, Out::B, Out::C], edicts: &[(EId::R(0), EAmt::Zero, EOut::N)]),
+  tpl!("xfer-split-seven-each-opreturn-middle", false, inputs: &[RIn::Runic(0)], outputs: &[Out::A, Out::Rs, Out::B, Out::C], edicts: &[(EId::R(0), EAmt::Seven, EOut::N)]),
   tpl!("xfer-edict-to-opreturn", true, inputs: &[RIn::Runic(0)], outputs: AB_RS, edicts: &[(EId::R(0), EAmt::Seven, EOut::OpReturn)]),
   tpl!("xfer-pointer-opreturn", false, inputs: &[RIn::Runic(0)], outputs: AB_RS, pointer: PtrK::OpReturn),
   tpl!("xfer-cenotaph", true, inputs: &[RIn::Runic(0)], outputs: AB_RS, ceno: Ceno::UnknownEvenTag),
@@ -539,6 +552,7 @@ impl Builder<'_> {
         Commit::T5 => (Some(OutPoint { txid: self.fan_b(), vout: q as u32 }), commitment.clone()),
         Commit::N6 => (Some(OutPoint { txid: fa, vout: (4 * q + 3) as u32 }), commitment.clone()),
         Commit::None => (None, vec![]),
+        Commit::T5ThenT6 | Commit::N6ThenT6 | Commit::T6ThenT5 => (None, vec![]),
       };
       if let Some(cop) = cop {
         let w = txkit::tapscript_witness(&push_script(&bytes));
@@ -547,6 +561,20 @@ impl Builder<'_> {
         } else {
           ins.insert(0, (cop, w));
         }
+      }
+      let t6 = OutPoint { txid: fa, vout: (4 * q + 2) as u32 };
+      let t5 = OutPoint { txid: self.fan_b(), vout: q as u32 };
+      let n6 = OutPoint { txid: fa, vout: (4 * q + 3) as u32 };
+      let pair = match e.commit {
+        Commit::T5ThenT6 => Some((t5, t6)),
+        Commit::N6ThenT6 => Some((n6, t6)),
+        Commit::T6ThenT5 => Some((t6, t5)),
+        _ => None,
+      };
+      if let Some((first, second)) = pair {
+        let w = txkit::tapscript_witness(&push_script(&commitment));
+        ins.insert(0, (second, w.clone()));
+        ins.insert(0, (first, w));
       }
     }
     for (op, _) in &ins {
@@ -1004,12 +1032,131 @@ pub fn exec(w: &mut Worker, cfg: &IndexCfg, layout: &Layout, choices: &Choices, 
     return e;
   };
   e.rendered = rendered;
-  run_blocks(w, cfg, blocks, &mut e, events);
+  run_blocks(w, cfg, blocks, &mut e, events, false);
   e
 }
 
+/// Hand-picked multi-deviation histories (per block: transaction templates, coinbase shape),
+/// each run under both indexing modes (update() per block; one update() for all blocks).
+pub type DenseSpec = &'static [(&'static [&'static str], &'static str)];
+
+pub const DENSE: &[(&str, DenseSpec)] = &[
+  ("mint-into-holder", &[
+    (&["etch-all-fields"], "full"),
+    (&["mint-r0-spending-r0"], "full"),
+    (&["mint-r0-spending-r0-split", "mint-r0"], "full"),
+  ]),
+  ("offset-max-and-zero-amount", &[
+    (&["etch-terms-offset-max", "etch-terms-zero-amount"], "full"),
+    (&["mint-r0", "mint-r1"], "full"),
+    (&["mint-r1", "mint-r0"], "mint-r0"),
+  ]),
+  ("commit-orders-and-splits", &[
+    (&["etch-commit-immature-then-mature", "etch-commit-nontaproot-then-taproot", "etch-commit-mature-then-immature"], "full"),
+    (&["xfer-split-even-opreturn-first", "xfer-r1-edict"], "full"),
+    (&["xfer-split-seven-each-opreturn-middle", "xfer-merge-two"], "full"),
+  ]),
+  ("windows", &[
+    (&["etch-abs-window-next", "etch-rel-window-next", "etch-terms-mixed"], "full"),
+    (&["mint-r0", "mint-r1"], "mint-r0"),
+    (&["mint-r0", "mint-r1"], "full"),
+  ]),
+  ("dense-1", &[
+    (&["etch-atmin-open-terms", "mint-next-tx"], "full"),
+    (&["mint-r0", "xfer-edict-to-opreturn"], "full"),
+    (&["mint-r0-cenotaph", "xfer-split-even"], "mint-r0"),
+  ]),
+  ("dense-2", &[
+    (&["etch-high-premine", "etch-unnamed"], "unnamed-etching"),
+    (&["xfer-cenotaph", "etch-high-5conf"], "full"),
+    (&["xfer-r1-edict", "cenotaph-etch-named"], "cenotaph"),
+  ]),
+];
+
+pub const DENSE_SLOTS: usize = 3;
+
+pub fn dense_layout(l: usize) -> Layout {
+  Layout { l, slots: DENSE_SLOTS, templates: (0..TEMPLATES.len()).collect(), shapes: COINBASE_SHAPES.len() }
+}
+
+pub fn dense_choices(spec: DenseSpec) -> Choices {
+  let mut v = Vec::new();
+  for (txs, cb) in spec {
+    for s in 0..DENSE_SLOTS {
+      v.push(match txs.get(s) {
+        Some(name) => (TEMPLATES.iter().position(|t| t.name == *name).unwrap_or_else(|| panic!("unknown template {name}")) + 1) as u8,
+        None => 0,
+      });
+    }
+    v.push(COINBASE_SHAPES.iter().position(|c| c == cb).unwrap_or_else(|| panic!("unknown shape {cb}")) as u8);
+  }
+  v
+}
+
+pub fn exec_dense(w: &mut Worker, cfg: &IndexCfg, spec: DenseSpec, events: bool, batch: bool) -> Exec {
+  let mut e = Exec::default();
+  let Some((blocks, rendered)) = build_history(w, &dense_layout(spec.len()), &dense_choices(spec)) else {
+    e.disabled = true;
+    return e;
+  };
+  e.rendered = rendered;
+  run_blocks(w, cfg, blocks, &mut e, events && !batch, batch);
+  e
+}
+
+fn run_dense(property: &'static str, cfg: &IndexCfg, events: bool, report: &mut Report) -> (u64, BTreeSet<String>) {
+  let mut jobs: Vec<(usize, bool)> = Vec::new();
+  for di in 0..DENSE.len() {
+    for batch in [false, true] {
+      jobs.push((di, batch));
+    }
+  }
+  let (results, _) = util::par_map(
+    jobs.len(),
+    None,
+    |id| Worker::new(500 + id),
+    |w, i| {
+      let (di, batch) = jobs[i];
+      util::catch(|| exec_dense(w, cfg, DENSE[di].1, events, batch))
+    },
+  );
+  let mut states = BTreeSet::new();
+  let mut n = 0;
+  let mut outcomes: BTreeMap<String, String> = BTreeMap::new();
+  for (i, r) in results.into_iter().enumerate() {
+    let (di, batch) = jobs[i];
+    let name = DENSE[di].0;
+    let tag = format!("{name}{}", if batch { "/one-update" } else { "/per-block" });
+    match r {
+      Some(Ok(e)) if !e.disabled => {
+        n += 1;
+        states.extend(e.states.iter().cloned());
+        outcomes.insert(tag.clone(), e.outcome.clone());
+        for (prop, class, what) in e.violations {
+          let (prop, class) = if prop == "C16" && class.starts_with("update/") && property != "C16" { (property.to_string(), format!("index-stuck/{class}")) } else { (prop, class) };
+          if prop == property {
+            report.violation(class, format!("[{tag}] {what}"), json!({"suite": "runes-dense", "dense": name, "batch": batch, "history": e.rendered}));
+          }
+        }
+      }
+      Some(Ok(_)) => {
+        println!("MACHINERY: dense history {tag} is disabled");
+        report.violation(format!("{property}/machinery-dense-disabled"), format!("dense history {tag} cannot be built"), json!({}));
+      }
+      Some(Err(p)) => {
+        println!("MACHINERY: harness panic on dense history {tag}: {p}");
+        report.violation(format!("{property}/machinery-panic"), format!("harness panicked on dense history {tag}: {p}"), json!({}));
+      }
+      None => {}
+    }
+  }
+  report.set("runes.dense.executions", n);
+  report.set("runes.dense.outcomes", json!(outcomes));
+  (n, states)
+}
+
 /// Indexes `blocks` on top of the prefix with the real index and the models in lock-step.
-pub fn run_blocks(w: &mut Worker, cfg: &IndexCfg, blocks: Vec<Vec<Transaction>>, e: &mut Exec, events: bool) {
+pub fn run_blocks(w: &mut Worker, cfg: &IndexCfg, blocks: Vec<Vec<Transaction>>, e: &mut Exec, events: bool, batch: bool) {
   w.restore_prefix();
   let mut runes = RuneModel::default();
   let mut sats = SatModel::default();
@@ -1035,11 +1182,15 @@ pub fn run_blocks(w: &mut Worker, cfg: &IndexCfg, blocks: Vec<Vec<Transaction>>,
   };
   let mut fold = super::events::EventFold::default();
   let mut feats: BTreeSet<&'static str> = BTreeSet::new();
-  for txs in blocks {
+  let nblocks = blocks.len();
+  for (bi, txs) in blocks.into_iter().enumerate() {
     w.world.push_block(txs);
     let block = w.world.blocks.last().unwrap().clone();
     runes.apply_block(&block, Network::Regtest, 0);
     sats.apply_block(&block);
+    if batch && bi + 1 < nblocks {
+      continue;
+    }
     match util::catch(|| index.update()) {
       Ok(Ok(())) => {}
       Ok(Err(err)) => {
@@ -1114,7 +1265,7 @@ pub fn run_into(ctx: &Ctx, property: &'static str, mut report: Report) -> Report
     if let Some(tag) = r["scenario"].as_str() {
       let th = r["thorough"].as_bool().unwrap_or(false);
       let sc = if tag == "mint-matrix" { super::runes_batch::mint_matrix(th) } else { super::runes_batch::allocation_product(th) };
-      let ex = super::runes_batch::run_scenario(&sc, &cfg, 0, tag);
+      let ex = super::runes_batch::run_scenario_events(&sc, &cfg, 0, tag, events);
       for (p, c, what) in &ex.violations {
         println!("  [{p}] {c}: {what}");
         if p == property {
@@ -1125,6 +1276,23 @@ pub fn run_into(ctx: &Ctx, property: &'static str, mut report: Report) -> Report
       report.set("transitions", ex.blocks.max(1));
       report.set("traces_validated_against_impl", 1u64);
       report.sample(json!(sc.description));
+      return report;
+    }
+    if let Some(name) = r["dense"].as_str().filter(|_| r["suite"] == "runes-dense") {
+      let spec = DENSE.iter().find(|(n, _)| *n == name).expect("unknown dense history").1;
+      let mut w = Worker::new(0);
+      let e = exec_dense(&mut w, &cfg, spec, events, r["batch"].as_bool().unwrap_or(false));
+      println!("replay history: {}", e.rendered);
+      for (p, c, what) in &e.violations {
+        println!("  [{p}] {c}: {what}");
+        if p == property {
+          report.violation(c.clone(), what.clone(), r.clone());
+        }
+      }
+      report.set("states", e.states.len().max(1) as u64);
+      report.set("transitions", e.blocks.max(1));
+      report.set("traces_validated_against_impl", 1u64);
+      report.sample(e.rendered);
       return report;
     }
     let choices: Choices = r["choices"].as_array().unwrap().iter().map(|x| x.as_u64().unwrap() as u8).collect();
@@ -1158,12 +1326,12 @@ pub fn run_into(ctx: &Ctx, property: &'static str, mut report: Report) -> Report
   if matches!(property, "C09" | "C08") {
     scenarios.push(("allocation-product", super::runes_batch::allocation_product(ctx.thorough())));
   }
-  if matches!(property, "C10" | "C08") {
+  if matches!(property, "C10" | "C08" | "C37") {
     scenarios.push(("mint-matrix", super::runes_batch::mint_matrix(ctx.thorough())));
   }
   for (tag, sc) in &scenarios {
-    let audit_from = sc.blocks.len().saturating_sub(if *tag == "mint-matrix" { 8 } else { 4 });
-    let ex = super::runes_batch::run_scenario(sc, &cfg, audit_from, tag);
+    let audit_from = if events { 0 } else { sc.blocks.len().saturating_sub(if *tag == "mint-matrix" { 8 } else { 4 }) };
+    let ex = super::runes_batch::run_scenario_events(sc, &cfg, audit_from, tag, events);
     for (p, c, what) in &ex.violations {
       if p == property {
         report.violation(format!("{c}/batched-{tag}"), what.clone(), json!({"scenario": tag, "thorough": ctx.thorough()}));
@@ -1215,6 +1383,9 @@ pub fn run_into(ctx: &Ctx, property: &'static str, mut report: Report) -> Report
       exhaustive = false;
     }
   }
+  let (dn, dstates) = run_dense(property, &cfg, events, &mut report);
+  traces += dn;
+  all_states.extend(dstates);
   let (base_states, base_traces) = if events { (report.get("states"), report.get("traces_validated_against_impl")) } else { (0, 0) };
   let prior_rule = report.coverage.get("rule").and_then(|v| v.as_str()).map(|s| format!("{s} || ")).filter(|_| events).unwrap_or_default();
   if events && report.coverage.get("exhaustive").and_then(|v| v.as_bool()) == Some(false) {
@@ -1231,10 +1402,12 @@ pub fn run_into(ctx: &Ctx, property: &'static str, mut report: Report) -> Report
        commit outputs with 6 and 5 confirmations, with at most K deviations from 'empty block'; alphabet = {} transaction templates \
        (etchings x name kinds x commitment kinds x terms, cenotaphs, mints, edict/pointer transfers) and {} coinbase shapes; quick: K<=1 \
        over the full alphabet with L=3, K=2 over the core alphabet ({} templates) with L=2; each history runs on the real Index \
-       (update() after every block) in lock-step with a reference model written from the runes specification; states = distinct index content hashes",
+       (update() after every block) in lock-step with a reference model written from the runes specification; additionally {} hand-picked \
+       3-block histories with 5-8 deviations each under both indexing modes (update() per block; one update() for all three); states = distinct index content hashes",
       TEMPLATES.len(),
       COINBASE_SHAPES.len(),
-      TEMPLATES.iter().filter(|t| t.core).count()
+      TEMPLATES.iter().filter(|t| t.core).count(),
+      DENSE.len()
     ),
   );
   report.set("space", json!({"templates": TEMPLATES.iter().map(|t| t.name).collect::<Vec<_>>(), "coinbase_shapes": COINBASE_SHAPES, "index": cfg.label()}));
